@@ -258,3 +258,33 @@ func H07_other_client_leaves() {
 	}
 	vrtReach("C07.other_client_left")
 }
+
+// H07_resubscribe: a second SUBSCRIBE for a filter the client already holds
+// replaces the granted QoS: the SUBACK reports it and deliveries follow it.
+func H07_resubscribe() {
+	topics.MaxQosAllowed = 2
+	b := vrtBroker("mockSuccess")
+	a, _ := b.connect(vrtConnectPkt([]byte("a"), true))
+	p, _ := b.connect(vrtConnectPkt([]byte("p"), true))
+	filters := [][]byte{[]byte("t"), []byte("t/+"), []byte("#")}
+	F := filters[vrtChoice("filter", len(filters))]
+	topic := []byte("t/x")
+	if len(F) == 1 && F[0] == 't' {
+		topic = []byte("t")
+	}
+	q1, q2 := vrtByte("q1"), vrtByte("q2")
+	vrtAssume(vrtAnd(q1 <= 2, q2 <= 2))
+	ans := vrtExchange(a, &specPkt{Typ: specSUBSCRIBE, ID: 1, Topics: [][]byte{F}, QoS: []byte{q1}})
+	vrtAssert("C07.suback_or_close", vrtBytesEq(ans, []byte{0x90, 3, 0, 1, q1}))
+	ans = vrtExchange(a, &specPkt{Typ: specSUBSCRIBE, ID: 2, Topics: [][]byte{F}, QoS: []byte{q2}})
+	vrtAssert("C07.suback_or_close", vrtBytesEq(ans, []byte{0x90, 3, 0, 2, q2}))
+	vrtExchange(p, &specPkt{Typ: specPUBLISH, Flags: 4, ID: 5, Topic: topic, Payload: []byte("m")})
+	vrtExchange(p, &specPkt{Typ: specPUBREL, ID: 5})
+	got, ok := vrtParse(a.peerTake())
+	vrtAssert("C07.stream_wellformed", ok)
+	vrtAssert("C07.resubscribed_once", len(got) == 1)
+	if len(got) == 1 {
+		vrtAssert("C07.resubscribe_takes_effect", (got[0].Flags>>1)&3 == q2)
+	}
+	vrtReach("C07.resubscribed")
+}
